@@ -176,12 +176,18 @@ fn axis_vec(rng: &mut Rng) -> [f32; 3] {
             (v[2] * k) as f32,
         ];
         if rng.chance(0.2) {
-            // axis-aligned or diagonal directions
+            // directions inside a coordinate plane
             let i = rng.below(3);
             v[i] = 0.0;
             if norm(f3(v)) < 0.02 {
                 continue;
             }
+        } else if rng.chance(0.2) {
+            // exactly (anti-)parallel to a principal axis, any length
+            let i = rng.below(3);
+            let keep = if v[i] == 0.0 { 1.0 } else { v[i] };
+            v = [0.0; 3];
+            v[i] = if rng.chance(0.3) { keep.signum() } else { keep };
         }
         return v;
     }
@@ -1460,8 +1466,15 @@ fn check_constants(cx: &mut Cx, rng: &mut Rng, used: &mut Vec<&'static str>) -> 
         }
     }
     // Axis::try_from normalises ("Normalized 3D axis (of length 1)")
-    for _ in 0..16 {
-        let d = dir(rng);
+    for round in 0..16 {
+        let mut d = dir(rng);
+        if round % 4 == 3 {
+            // exactly along a principal axis, either sign
+            let i = rng.below(3);
+            let s = if rng.chance(0.5) { 1.0 } else { -1.0 };
+            d = [0.0; 3];
+            d[i] = s;
+        }
         let k = (10.0f64).powf(rng.uniform(-7.0, 7.0));
         let v = [(d[0] * k) as f32, (d[1] * k) as f32, (d[2] * k) as f32];
         let n = norm(f3(v));
